@@ -402,6 +402,15 @@ func RunC13(seed int64, tier, out string) {
 			}
 		}
 	}
+	// constant buffers: all counts zero / all counts maximal
+	for ki := range Kinds {
+		for _, n := range []int{0, 1, 2, 4, 8, 16, 40, 80, 400} {
+			try(&Kinds[ki], "zeros", make([]byte, n))
+			if n <= 16 {
+				try(&Kinds[ki], "ones", bytes.Repeat([]byte{0xff}, n))
+			}
+		}
+	}
 	// every offset of one small encoding per decoder overwritten with 0xff (quick: the small types)
 	for ki := range Kinds {
 		k := &Kinds[ki]
